@@ -99,7 +99,14 @@ fn get_prop(a: &Args, i: usize) -> Result<&'static Property, String> {
     prop(id).ok_or_else(|| format!("unknown property {}", id))
 }
 
+fn tier_from_env() {
+    if std::env::var("VERIF_TIER").ok().as_deref() == Some("thorough") {
+        world::THOROUGH.store(true, std::sync::atomic::Ordering::Relaxed);
+    }
+}
+
 fn cmd_digests(a: &Args) -> Result<i32, String> {
+    tier_from_env();
     let p = get_prop(a, 1)?;
     let cfg = BatchCfg {
         seed: a.seed,
@@ -133,6 +140,7 @@ fn genreplay(p: &'static Property, seed: u64, runs: u64) -> (u64, Vec<u64>) {
 }
 
 fn cmd_genreplay(a: &Args) -> Result<i32, String> {
+    tier_from_env();
     let p = get_prop(a, 1)?;
     let (n, bad) = genreplay(p, a.seed, a.runs.unwrap_or(2000));
     println!("genreplay {}: {} runs, {} mismatches {:?}", p.id, n, bad.len(), &bad[..bad.len().min(10)]);
@@ -145,6 +153,7 @@ fn cmd_replay(a: &Args) -> Result<i32, String> {
     let v: Value = serde_json::from_str(&s).map_err(|e| format!("{}: {}", path, e))?;
     let pid = v["property"].as_str().ok_or("replay file: no property")?;
     let p = prop(pid).ok_or_else(|| format!("unknown property {}", pid))?;
+    world::THOROUGH.store(v["tier"].as_str() == Some("thorough"), std::sync::atomic::Ordering::Relaxed);
     // same hang backstop as in batch mode
     let pid_s = pid.to_string();
     let path_s = path.clone();
@@ -186,6 +195,7 @@ fn cmd_run(a: &Args) -> Result<i32, String> {
         },
         Some(x) => return Err(format!("unknown tier {}", x)),
     };
+    world::THOROUGH.store(tier == "thorough", std::sync::atomic::Ordering::Relaxed);
     let runs = a.runs.unwrap_or(if tier == "quick" { p.quick_runs } else { p.thorough_runs });
     let replay_dir = format!("{}/replays", a.root);
     let cfg = BatchCfg {
@@ -226,7 +236,8 @@ fn cmd_run(a: &Args) -> Result<i32, String> {
         let first = execute(p, sc, Choices::generate(run_seed(a.seed, p, sc, *run)), false);
         let orig_len = first.choices.len();
         let m = minimise(p, sc, first.choices, clause);
-        let file = replay_file_json(p, sc, a.seed, *run, &m.choices, &m.violation, orig_len, m.execs);
+        let mut file = replay_file_json(p, sc, a.seed, *run, &m.choices, &m.violation, orig_len, m.execs);
+        file["tier"] = json!(tier);
         let dir = format!("{}/{}", replay_dir, p.id);
         std::fs::create_dir_all(&dir).map_err(|e| format!("{}: {}", dir, e))?;
         let path = format!("{}/{}-s{}-r{}.json", dir, clause.replace('.', "_"), a.seed, run);
